@@ -29,6 +29,7 @@ from typhon.topography import SRTM30
 FILE_ROWS, FILE_COLS = 6000, 4800
 MAX_FULL = 2600          # cells up to which the whole array is handed to Coq
 LRU = 10
+TOL_HC = 240.0 * 2.0 ** -40   # returned coordinates are cell centres to within the margin 2^-40 degree (in half cells)
 
 
 def origin_of(name):
@@ -98,10 +99,20 @@ def to_hc(arr):
     for x in numpy.asarray(arr, dtype=float).ravel().tolist():
         y = x * 240.0
         n = round(y)
-        if abs(y - n) > 1e-6:
+        if not abs(y - n) <= TOL_HC:
             return None
         out.append(int(n))
     return out
+
+
+def hexes(arr):
+    """The exact binary64 values of an array (float.hex of every element)."""
+    return [float(x).hex() for x in numpy.asarray(arr, dtype=numpy.float64).ravel().tolist()]
+
+
+def grid_positions(n):
+    """Positions at which tile grids are compared bit for bit with the binary64 model."""
+    return sorted(set(range(min(n, 4))) | set(range(max(0, n - 4), n)) | set(range(0, n, 61)))
 
 
 def pick(n, marks, rng, extra=12):
@@ -126,6 +137,7 @@ def run_elev(rect, seed):
         res["offgrid"] = [numpy.asarray(lats).ravel()[:5].tolist(), numpy.asarray(lons).ravel()[:5].tolist()]
         return res
     res["lats"], res["lons"] = la, lo
+    res["lats_x"], res["lons_x"] = hexes(lats), hexes(lons)
     if z.shape != (len(la), len(lo)):
         return res
     if not numpy.all(z == numpy.round(z)):
@@ -198,6 +210,11 @@ def run_case(case):
                         step = -2 if key.endswith("lat") else 2
                         r[key] = None if h is None else [h[0], h[-1], len(h),
                                                          all(y - x == step for x, y in zip(h, h[1:]))]
+                    r["pos"] = [grid_positions(SRTM30._tile_height), grid_positions(SRTM30._tile_width)]
+                    r["bits"] = []
+                    for arr, pos in ((g[0], r["pos"][0]), (g[1], r["pos"][1]), (n[0], r["pos"][0]), (n[1], r["pos"][1])):
+                        a = numpy.asarray(arr, dtype=numpy.float64).ravel()
+                        r["bits"].append([float(a[k]).hex() if k < len(a) else None for k in pos])
                     r["allclose"] = bool(len(g[0]) == len(n[0]) and len(g[1]) == len(n[1]) and
                                          numpy.allclose(g[0], n[0], rtol=0, atol=1e-9) and
                                          numpy.allclose(g[1], n[1], rtol=0, atol=1e-9))
@@ -217,7 +234,8 @@ def run_case(case):
 def main():
     cases = json.load(open(sys.argv[1]))
     install()
-    meta = {"dlat": SRTM30._dlat, "dlon": SRTM30._dlon, "H": SRTM30._tile_height, "W": SRTM30._tile_width}
+    meta = {"dlat": SRTM30._dlat, "dlon": SRTM30._dlon, "H": SRTM30._tile_height, "W": SRTM30._tile_width,
+            "dlat_x": float(SRTM30._dlat).hex(), "dlon_x": float(SRTM30._dlon).hex()}
     json.dump({"meta": meta, "results": [run_case(c) for c in cases]}, sys.stdout)
 
 
